@@ -15,14 +15,26 @@
      (`so3_exp_is_matrix_exp_uniform`: 1e-22 entrywise, exact arithmetic).
   D. `log`: rotation norm ≤ π (SO3 under the canonical sign `w ≥ 0`; SO2/SE2 angle in (−π, π]);
      `exp (log g) = g`; `log (exp a) = a` for rotation norm below π.
-  E. Bundle / SE3 / Galilei / SE_K_3: stated (`…_statement`), see the end of the file.
+  B'. SE3 closed-form branch (4×4, translation `R·S₁(−ω)·v`) and SE3 with zero rotation part: exact.
+  E. Bundle: `exp` of a block-diagonal `hat` is block diagonal on the model's `Fin (n+m)` index
+     type; hence the property for a product / Bundle follows from the parts.
+  B''. SE_K_3 for EVERY K and Galilei (5×5, `v = S₁ b`, `p = S₁ q + S₂ b τ`): closed-form branch exact.
+  D'. SE3: `log (exp a) = a` (`‖ω‖ < π`) and `exp (log g) = g` (`w > 0`), closed-form branches; the
+     rotation part of `log` of SE3 / Galilei / SE_K_3 is `SO3.log` of the rotation part, hence ≤ π.
+  F. Series-zone bounds for SE3/SE_K_3/Galilei and three series bounds of `log`: stated
+     (`…_statement`), end of the file.
 
   Helper lemmas: SmoothProofs/ExpODE.lean, SmoothProofs/C02{Basic,Exp,SO3,Log,LogSO3,LogSE2,
-  TaylorReal,Taylor,Series}.lean.
+  TaylorReal,Taylor,Series,SE3,SEK3,Galilei,LogSE3,TaylorLog,Bundle}.lean.
 -/
 import SmoothProofs.C02Series
 import SmoothProofs.C02LogSO3
 import SmoothProofs.C02LogSE2
+import SmoothProofs.C02SE3
+import SmoothProofs.C02Bundle
+import SmoothProofs.C02Galilei
+import SmoothProofs.C02LogSE3
+import SmoothProofs.C02TaylorLog
 import Mathlib.Tactic.NormNum
 import Mathlib.Analysis.Real.Pi.Bounds
 
@@ -204,6 +216,19 @@ theorem taylor_branch_bound_SE2_expAB (θ : ℝ) (h0 : θ ≠ 0) (h1 : θ * θ <
 example : (-(1 / 10 ^ 5) : ℝ) ≠ 0 ∧ (-(1 / 10 ^ 5) : ℝ) * (-(1 / 10 ^ 5)) < Scalar.eps2 := by
   rw [scalar_eps2]; norm_num
 
+/-- SO3 `log` coefficient `phi` (`SO3.logPhi`), series branch vs closed form `2·atan2(n,w)/n`,
+on unit quaternions with `w > 0`: at most `2n⁴/(5w⁵)` (from `0 ≤ arctan t − (t − t³/3) ≤ t⁵/5`). -/
+theorem taylor_branch_bound_SO3_logPhi (n2 w : ℝ) (h0 : 0 < n2) (h1 : n2 < Scalar.eps2)
+    (hw : 0 < w) (hU : n2 + w * w = 1) :
+    |SO3.logPhi n2 w - 2 * Complex.arg ⟨w, Real.sqrt n2⟩ / Real.sqrt n2|
+      ≤ n2 ^ 2 * (2 / (5 * w ^ 5)) := so3_logPhi_series n2 w h0 h1 hw hU
+/-- non-vacuity: `n² = 1e-10`, `w = √(1 − 1e-10)`. -/
+example : (0:ℝ) < 1 / 10 ^ 10 ∧ (1 / 10 ^ 10 : ℝ) < Scalar.eps2 ∧ 0 < Real.sqrt (1 - 1 / 10 ^ 10) ∧
+    (1 / 10 ^ 10 : ℝ) + Real.sqrt (1 - 1 / 10 ^ 10) * Real.sqrt (1 - 1 / 10 ^ 10) = 1 := by
+  have hpos : (0:ℝ) ≤ 1 - 1 / 10 ^ 10 := by norm_num
+  refine ⟨by norm_num, by rw [scalar_eps2]; norm_num, Real.sqrt_pos.2 (by norm_num), ?_⟩
+  rw [Real.mul_self_sqrt hpos]; ring
+
 /-- SO3, series branch: entrywise distance to the TRUE matrix exponential ≤ `‖a‖⁵/100`. -/
 theorem exp_series_error_SO3 (a : Vec ℝ 3) (h0 : 0 < sqNorm a) (h1 : sqNorm a < Scalar.eps2)
     (i j : Fin 3) :
@@ -347,33 +372,171 @@ theorem log_exp_SO3 (a : Vec ℝ 3) (h1 : ¬ sqNorm a < Scalar.eps2)
     (h2 : ¬ xyz2 (SO3.exp a) < Scalar.eps2) (hπ : Real.sqrt (sqNorm a) < Real.pi) :
     SO3.log (SO3.exp a) = a := so3_log_exp a h1 h2 hπ
 
-/-! ## E. Stated, not proved in this round -/
+/-! ## B'. SE3 -/
 
-/-- SE3: the closed-form branch of `exp` (translation `R·S₁(−ω)·v = S₁(ω)·v`) is the matrix
-exponential.  Reduction available: rotation block by `exp_is_matrix_exp_closed_SO3`; missing: the
-ODE for the translation column through `SO3.dr_exp`/`SO3.Ad` products. -/
-def exp_is_matrix_exp_closed_SE3_statement : Prop :=
-  ∀ a : Vec ℝ 6, Scalar.eps2 < sqNorm (SE3.tw a) →
-    toM (SE3.matrix (SE3.exp a)) = NormedSpace.exp (toM (SE3.hat a))
+/-- SE3 tangent `(v, ω)` with `‖ω‖ = 4 > π` -/
+noncomputable def eBig : Vec ℝ 6 := SE3.mk6 (mk3 1 2 3) (mk3 0 0 4)
 
-/-- Galilei: same with the extra nilpotent block (`S₁`, `S₂`). -/
-def exp_is_matrix_exp_closed_Galilei_statement : Prop :=
-  ∀ a : Vec ℝ 10, Scalar.eps2 < sqNorm (Galilei.tw a) →
-    toM (Galilei.matrix (Galilei.exp a)) = NormedSpace.exp (toM (Galilei.hat a))
+theorem eBig_closed : Scalar.eps2 < sqNorm (SE3.tw eBig) := by
+  rw [sqNorm3, scalar_eps2]; simp [eBig, SE3.tw, SE3.mk6, mk3]; norm_num
 
-/-- Bundle: `exp` of a block-diagonal `hat` is block diagonal (Mathlib: `Matrix.exp_blockDiagonal'`);
-the connection to `Bundle.bdiag` on `Fin (n + m)` indices is stated here. -/
-def exp_bdiag_statement : Prop :=
-  ∀ (n m : Nat) (A : Mat ℝ n n) (B : Mat ℝ m m),
+/-- SE3, closed-form branch (`‖ω‖² > eps2`, any magnitude): `matrix (exp a) = exp (hat a)`, 4×4;
+the code's translation `R · S₁(−ω) · v` is `S₁(ω) · v`. -/
+theorem exp_is_matrix_exp_closed_SE3 (a : Vec ℝ 6) (h : Scalar.eps2 < sqNorm (SE3.tw a)) :
+    toM (SE3.matrix (SE3.exp a)) = NormedSpace.exp (toM (SE3.hat a)) :=
+  se3_exp_is_matrix_exp_closed a h
+example : Scalar.eps2 < sqNorm (SE3.tw eBig) := eBig_closed
+
+/-- SE3 with zero rotation part: series branches, exact. -/
+theorem exp_is_matrix_exp_zero_SE3 (a : Vec ℝ 6) (h3 : a 3 = 0) (h4 : a 4 = 0) (h5 : a 5 = 0) :
+    toM (SE3.matrix (SE3.exp a)) = NormedSpace.exp (toM (SE3.hat a)) :=
+  se3_exp_is_matrix_exp_zero a h3 h4 h5
+example : (SE3.mk6 (mk3 (1:ℝ) 2 3) (mk3 0 0 0)) 3 = 0 ∧ (SE3.mk6 (mk3 (1:ℝ) 2 3) (mk3 0 0 0)) 4 = 0
+    ∧ (SE3.mk6 (mk3 (1:ℝ) 2 3) (mk3 0 0 0)) 5 = 0 := by simp [SE3.mk6, mk3]
+
+/-! ## B''. SE_K_3 and Galilei -/
+
+/-- SE_2(3) tangent `(v₁, v₂, ω)` with `‖ω‖ = 4 > π` -/
+noncomputable def kBig : Vec ℝ (3 + 3 * 2) :=
+  SEK3.mkT 2 (fun i => if i = 0 then mk3 1 2 3 else mk3 4 5 6) (mk3 0 0 4)
+
+theorem kBig_closed : Scalar.eps2 < sqNorm (SEK3.tw 2 kBig) := by
+  rw [sqNorm3, scalar_eps2]; simp [kBig, SEK3.tw, SEK3.mkT, mk3]; norm_num
+
+/-- SE_K_3, every `K`, closed-form branch (`‖ω‖² > eps2`, any magnitude). -/
+theorem exp_is_matrix_exp_closed_SEK3 (k : Nat) (a : Vec ℝ (3 + 3 * k))
+    (h : Scalar.eps2 < sqNorm (SEK3.tw k a)) :
+    toM (SEK3.matrix k (SEK3.exp k a)) = NormedSpace.exp (toM (SEK3.hat k a)) :=
+  sek3_exp_is_matrix_exp_closed k a h
+example : Scalar.eps2 < sqNorm (SEK3.tw 2 kBig) := kBig_closed
+
+/-- Galilei tangent `(b, q, s, ω)` with `‖ω‖ = 4 > π` -/
+noncomputable def gBig : Vec ℝ 10 := Galilei.mkT (mk3 1 2 3) (mk3 4 5 6) 7 (mk3 0 0 4)
+
+theorem gBig_closed : Scalar.eps2 < sqNorm (Galilei.tw gBig) := by
+  rw [sqNorm3, scalar_eps2]; simp [gBig, Galilei.tw, Galilei.mkT, mk3]; norm_num
+
+/-- Galilei, closed-form branch (`‖ω‖² > eps2`, any magnitude): 5×5 matrix exponential. -/
+theorem exp_is_matrix_exp_closed_Galilei (a : Vec ℝ 10) (h : Scalar.eps2 < sqNorm (Galilei.tw a)) :
+    toM (Galilei.matrix (Galilei.exp a)) = NormedSpace.exp (toM (Galilei.hat a)) :=
+  galilei_exp_is_matrix_exp_closed a h
+example : Scalar.eps2 < sqNorm (Galilei.tw gBig) := gBig_closed
+
+/-! ## D'. SE3 log; rotation part of log for the SO3-based groups -/
+
+/-- SE3 element: translation (1,2,3), rotation `qA` -/
+noncomputable def hA : Vec ℝ 7 := SE3.mk7 (mk3 1 2 3) qA
+
+theorem hA_so3 : SE3.so3 hA = qA := se3_so3_mk7 _ _
+
+/-- rotation norm of `log` ≤ π for SE3, Galilei, SE_K_3 (unit rotation part, canonical sign). -/
+theorem log_rotation_norm_le_pi_SE3 (g : Vec ℝ 7) (hU : UnitQ (SE3.so3 g)) (hw : 0 ≤ (SE3.so3 g) 3) :
+    Real.sqrt (sqNorm (SE3.tw (SE3.log g))) ≤ Real.pi := by
+  rw [se3_log_rotation]; exact so3_log_norm_le_pi _ hU hw
+example : UnitQ (SE3.so3 hA) ∧ 0 ≤ (SE3.so3 hA) 3 := by
+  rw [hA_so3]; exact ⟨qA_unit, qA_canon⟩
+
+theorem log_rotation_norm_le_pi_Galilei (g : Vec ℝ 11) (hU : UnitQ (Galilei.gq g))
+    (hw : 0 ≤ (Galilei.gq g) 3) :
+    Real.sqrt (sqNorm (Galilei.tw (Galilei.log g))) ≤ Real.pi := by
+  rw [galilei_log_rotation]; exact so3_log_norm_le_pi _ hU hw
+example : UnitQ (Galilei.gq (Galilei.mkG (mk3 1 2 3) (mk3 4 5 6) 7 qA)) ∧
+    0 ≤ (Galilei.gq (Galilei.mkG (mk3 1 2 3) (mk3 4 5 6) 7 qA)) 3 := by
+  rw [galilei_gq_mkG]; exact ⟨qA_unit, qA_canon⟩
+
+theorem log_rotation_norm_le_pi_SEK3 (k : Nat) (g : Vec ℝ (4 + 3 * k)) (hU : UnitQ (SEK3.gq k g))
+    (hw : 0 ≤ (SEK3.gq k g) 3) :
+    Real.sqrt (sqNorm (SEK3.tw k (SEK3.log k g))) ≤ Real.pi := by
+  rw [sek3_log_rotation]; exact so3_log_norm_le_pi _ hU hw
+example : UnitQ (SEK3.gq 2 (SEK3.mkG 2 (fun _ => mk3 1 2 3) qA)) ∧
+    0 ≤ (SEK3.gq 2 (SEK3.mkG 2 (fun _ => mk3 1 2 3) qA)) 3 := by
+  rw [sek3_gq_mkG]; exact ⟨qA_unit, qA_canon⟩
+
+/-- SE3 `log (exp a) = a`: `eps2 < ‖ω‖²`, `‖ω‖ < π`, SO3 functions in their closed-form branch. -/
+theorem log_exp_SE3 (a : Vec ℝ 6) (h1 : Scalar.eps2 < sqNorm (SE3.tw a))
+    (h2 : ¬ xyz2 (SO3.exp (SE3.tw a)) < Scalar.eps2)
+    (hπ : Real.sqrt (sqNorm (SE3.tw a)) < Real.pi) : SE3.log (SE3.exp a) = a :=
+  se3_log_exp a h1 h2 hπ
+
+/-- SE3 `exp (log g) = g`: unit rotation part with `w > 0` (rotation angle below π),
+closed-form branch. -/
+theorem exp_log_SE3 (g : Vec ℝ 7) (hU : UnitQ (SE3.so3 g)) (hw : 0 < (SE3.so3 g) 3)
+    (hb : ¬ xyz2 (SE3.so3 g) < Scalar.eps2) : SE3.exp (SE3.log g) = g := se3_exp_log g hU hw hb
+example : UnitQ (SE3.so3 hA) ∧ 0 < (SE3.so3 hA) 3 ∧ ¬ xyz2 (SE3.so3 hA) < Scalar.eps2 := by
+  rw [hA_so3]; exact ⟨qA_unit, by simp [qA, mk4], qA_closed⟩
+
+/-! ## E. Bundle -/
+
+/-- `NormedSpace.exp` of the model's block-diagonal arrangement is block diagonal. -/
+theorem exp_bdiag_is_bdiag_exp {n m : Nat} (A : Mat ℝ n n) (B : Mat ℝ m m) :
     NormedSpace.exp (toM (Bundle.bdiag A B))
-      = toM (Bundle.bdiag (Mat.of (NormedSpace.exp (toM A))) (Mat.of (NormedSpace.exp (toM B))))
+      = toM (Bundle.bdiag (ofM (NormedSpace.exp (toM A))) (ofM (NormedSpace.exp (toM B)))) :=
+  exp_bdiag A B
 
-/-- remaining series-branch coefficient bounds (`SO3.logPhi`, `SE2.logA`, `SO3.S1invA`): the
-statement shape, with the next-term constants left existential. -/
+/-- binary product (one step of a Bundle): `exp` is the matrix exponential at `a` when it is for
+both parts at the corresponding halves of `a`. -/
+theorem exp_is_matrix_exp_prod (A B : LieModel ℝ) (a : Vec ℝ (A.dof + B.dof))
+    (hA : ExpIsMatrixExpAt A (Bundle.fst a)) (hB : ExpIsMatrixExpAt B (Bundle.snd a)) :
+    ExpIsMatrixExpAt (Bundle.prod A B) a := prod_expIsMatrixExpAt A B a hA hB
+/-- non-vacuity: `SO2 × T2` at any tangent vector. -/
+example (a : Vec ℝ ((SO2.model : LieModel ℝ).dof + (Tn.model 2 : LieModel ℝ).dof)) :
+    ExpIsMatrixExpAt (SO2.model : LieModel ℝ) (Bundle.fst a) ∧
+    ExpIsMatrixExpAt (Tn.model 2 : LieModel ℝ) (Bundle.snd a) :=
+  ⟨so2_exp_is_matrix_exp _, tn_exp_is_matrix_exp _⟩
+
+/-- Bundle of a list of parts for which `exp` is the matrix exponential everywhere. -/
+theorem exp_is_matrix_exp_bundle (ps : List (LieModel ℝ))
+    (h : ∀ p ∈ ps, ∀ a, ExpIsMatrixExpAt p a) : ∀ a, ExpIsMatrixExpAt (Bundle.bundle ps) a :=
+  bundle_expIsMatrixExp ps h
+/-- non-vacuity: `Bundle<SO2, C1, T3>`. -/
+example : ∀ p ∈ [(SO2.model : LieModel ℝ), C1.model, Tn.model 3], ∀ a, ExpIsMatrixExpAt p a := by
+  intro p hp a
+  simp only [List.mem_cons, List.not_mem_nil, or_false] at hp
+  rcases hp with rfl | rfl | rfl
+  · exact so2_exp_is_matrix_exp a
+  · exact c1_exp_is_matrix_exp a
+  · exact tn_exp_is_matrix_exp a
+
+/-- `exp ∘ log` / `log ∘ exp` of a product reduce to the parts. -/
+theorem exp_log_prod (A B : LieModel ℝ) (g : Vec ℝ (A.rep + B.rep))
+    (hA : A.exp (A.log (Bundle.fst g)) = Bundle.fst g)
+    (hB : B.exp (B.log (Bundle.snd g)) = Bundle.snd g) :
+    (Bundle.prod A B).exp ((Bundle.prod A B).log g) = g := prod_exp_log A B g hA hB
+example (g : Vec ℝ ((Tn.model 2 : LieModel ℝ).rep + (Tn.model 1 : LieModel ℝ).rep)) :
+    (Tn.model 2 : LieModel ℝ).exp ((Tn.model 2 : LieModel ℝ).log (Bundle.fst g)) = Bundle.fst g ∧
+    (Tn.model 1 : LieModel ℝ).exp ((Tn.model 1 : LieModel ℝ).log (Bundle.snd g)) = Bundle.snd g :=
+  ⟨rfl, rfl⟩
+
+theorem log_exp_prod (A B : LieModel ℝ) (a : Vec ℝ (A.dof + B.dof))
+    (hA : A.log (A.exp (Bundle.fst a)) = Bundle.fst a)
+    (hB : B.log (B.exp (Bundle.snd a)) = Bundle.snd a) :
+    (Bundle.prod A B).log ((Bundle.prod A B).exp a) = a := prod_log_exp A B a hA hB
+example (a : Vec ℝ ((Tn.model 2 : LieModel ℝ).dof + (Tn.model 1 : LieModel ℝ).dof)) :
+    (Tn.model 2 : LieModel ℝ).log ((Tn.model 2 : LieModel ℝ).exp (Bundle.fst a)) = Bundle.fst a ∧
+    (Tn.model 1 : LieModel ℝ).log ((Tn.model 1 : LieModel ℝ).exp (Bundle.snd a)) = Bundle.snd a :=
+  ⟨rfl, rfl⟩
+
+/-! ## F. Stated, not proved in this round -/
+
+/-- SE3 in the series zone `0 < ‖ω‖² ≤ eps2`: bound on the distance to the matrix exponential
+(follows the SO3/SE2 pattern from `taylor_branch_bound_trig` + `taylor_branch_bound_SO3_expAB`). -/
+def exp_series_error_SE3_statement : Prop :=
+  ∃ c : ℝ, ∀ a : Vec ℝ 6, 0 < sqNorm (SE3.tw a) → sqNorm (SE3.tw a) ≤ Scalar.eps2 → ∀ i j,
+    |toM (SE3.matrix (SE3.exp a)) i j - (NormedSpace.exp (toM (SE3.hat a))) i j|
+      ≤ c * (sqNorm (SE3.tw a)) ^ 2 * (1 + |a 0| + |a 1| + |a 2|)
+
+/-- Galilei / SE_K_3 in the series zone: same shape of bound (not proved). -/
+def exp_series_error_Galilei_statement : Prop :=
+  ∃ c : ℝ, ∀ a : Vec ℝ 10, 0 < sqNorm (Galilei.tw a) → sqNorm (Galilei.tw a) ≤ Scalar.eps2 → ∀ i j,
+    |toM (Galilei.matrix (Galilei.exp a)) i j - (NormedSpace.exp (toM (Galilei.hat a))) i j|
+      ≤ c * (sqNorm (Galilei.tw a)) ^ 2
+        * (1 + |a 0| + |a 1| + |a 2| + |a 3| + |a 4| + |a 5|) * (1 + |a 6|)
+
+/-- remaining series-branch coefficient bounds (`SE2.logA`, `SO3.S1invA`): the statement shape,
+with the next-term constants left existential (`x/tan x` and `1/x² − (1+cos x)/(2x sin x)` need
+a quotient of two Taylor remainders; not done). -/
 def taylor_branch_bound_log_statement : Prop :=
-  ∃ c1 c2 c3 : ℝ,
-    (∀ n2 w : ℝ, 0 < n2 → n2 < Scalar.eps2 → 0 < w → n2 + w * w = 1 →
-      |SO3.logPhi n2 w - 2 * Complex.arg ⟨w, Real.sqrt n2⟩ / Real.sqrt n2| ≤ c1 * n2 ^ 2) ∧
+  ∃ c2 c3 : ℝ,
     (∀ θ : ℝ, θ ≠ 0 → θ * θ < Scalar.eps2 →
       |SE2.logA (θ * θ) (θ / 2) - (θ / 2) / Real.tan (θ / 2)| ≤ c2 * (θ * θ) ^ 2) ∧
     (∀ th2 : ℝ, 0 < th2 → th2 < Scalar.eps2 →
